@@ -1,2 +1,80 @@
-(* C08, share of the token buckets.  Statements are added as the proofs land. *)
-From ONL Require Import Elem.Bucket Elem.TwoRate.
+(* C08, share of TokenBucket and TwoRateTokenBucket: packets are never lost, duplicated or invented.
+   Only statements, closed by the lemma that proves them, and their assumptions.  Packets are records with
+   their object identity (uid) and identifying fields, so list equalities below are about the very packets. *)
+From Coq Require Import ZArith QArith List.
+From ONL Require Import Elem.Packet Elem.StoreQ Elem.Bucket Elem.BucketProofs Elem.TwoRate Elem.TwoRateProofs.
+Import ListNotations.
+
+(* put-in = forwarded ++ held (packet in service, then the store incl. a granted get), in order: nothing is
+   dropped, duplicated or invented, and every forwarded packet is the very packet put in *)
+Theorem C08_tb_conserves : forall c t0 acts s tr,
+  0 < rate c -> tb_run c (tb0 true c t0) acts = Some (s, tr) ->
+  map snd (puts tr) = map snd (fwds tr) ++ tb_held s.
+Proof. exact tb_conserves. Qed.
+Print Assumptions C08_tb_conserves.
+
+Theorem C08_tb_counters : forall c t0 acts s tr,
+  0 < rate c -> tb_run c (tb0 true c t0) acts = Some (s, tr) ->
+  nrecv s = Z.of_nat (length (puts tr)) /\ nsent s = Z.of_nat (length (fwds tr)).
+Proof. exact tb_counters. Qed.
+Print Assumptions C08_tb_counters.
+
+Theorem C08_tb_flow_fifo : forall c t0 acts s tr,
+  0 < rate c -> tb_run c (tb0 true c t0) acts = Some (s, tr) ->
+  forall f, exists rest, of_flow f (map snd (puts tr)) = of_flow f (map snd (fwds tr)) ++ rest.
+Proof. exact tb_flow_fifo. Qed.
+Print Assumptions C08_tb_flow_fifo.
+
+(* nothing enabled but puts and the passing of time, no timeout pending => nothing held, all forwarded.
+   (Sizes >= 0 and peak > 0: otherwise the kernel rejects the spacing timeout with ValueError.) *)
+Theorem C08_tb_drained : forall c t0 acts s tr,
+  0 < rate c -> tb_run c (tb0 true c t0) acts = Some (s, tr) ->
+  (forall k, peak_on c = Some k -> 0 < k) -> Forall (fun x => 0 <= sz (snd x)) (puts tr) ->
+  phase s = PIdle ->
+  (forall a, (forall p, a <> TPut p) -> (forall t, a <> TAdvance t) -> tb_act c s a = None) ->
+  tb_held s = [] /\ map snd (fwds tr) = map snd (puts tr).
+Proof. exact tb_drained. Qed.
+Print Assumptions C08_tb_drained.
+
+(* a packet in service is never stuck: its timeout is pending, not passed, and when due the step is enabled *)
+Theorem C08_tb_timer_enabled : forall c t0 acts s tr,
+  0 < rate c -> tb_run c (tb0 true c t0) acts = Some (s, tr) ->
+  (forall k, peak_on c = Some k -> 0 < k) -> Forall (fun x => 0 <= sz (snd x)) (puts tr) ->
+  forall p dl, phase s = PTok p dl \/ phase s = PPeak p dl ->
+    tnow s <= dl /\ (dl == tnow s -> exists s' o, tb_act c s TTimer = Some (s', o)).
+Proof. exact tb_timer_enabled. Qed.
+Print Assumptions C08_tb_timer_enabled.
+
+Theorem C08_trtb_conserves : forall c t0 acts s tr,
+  trwf c -> tr_run true true c (tr0 true c t0) acts = Some (s, tr) ->
+  map snd (rputs tr) = map snd (rfwds tr) ++ tr_held s.
+Proof. exact trtb_conserves. Qed.
+Print Assumptions C08_trtb_conserves.
+
+Theorem C08_trtb_counters : forall c t0 acts s tr,
+  trwf c -> tr_run true true c (tr0 true c t0) acts = Some (s, tr) ->
+  rrecv s = Z.of_nat (length (rputs tr)) /\ rsent s = Z.of_nat (length (rfwds tr)) /\
+  length (rcols tr) = length (rfwds tr).
+Proof. exact trtb_counters. Qed.
+Print Assumptions C08_trtb_counters.
+
+Theorem C08_trtb_flow_fifo : forall c t0 acts s tr,
+  trwf c -> tr_run true true c (tr0 true c t0) acts = Some (s, tr) ->
+  forall f, exists rest, of_flow f (map snd (rputs tr)) = of_flow f (map snd (rfwds tr)) ++ rest.
+Proof. exact trtb_flow_fifo. Qed.
+Print Assumptions C08_trtb_flow_fifo.
+
+Theorem C08_trtb_drained : forall c t0 acts s tr,
+  trwf c -> tr_run true true c (tr0 true c t0) acts = Some (s, tr) ->
+  rphase_ s = RIdle ->
+  (forall a, (forall p, a <> RPut p) -> (forall t, a <> RAdvance t) -> tr_act true true c s a = None) ->
+  tr_held s = [] /\ map snd (rfwds tr) = map snd (rputs tr).
+Proof. exact trtb_drained. Qed.
+Print Assumptions C08_trtb_drained.
+
+Theorem C08_trtb_timer_enabled : forall c t0 acts s tr,
+  trwf c -> tr_run true true c (tr0 true c t0) acts = Some (s, tr) ->
+  forall p dl, rphase_ s = RWaitPeak p dl \/ rphase_ s = RWaitCommit p dl ->
+    rnow s <= dl /\ (dl == rnow s -> exists s' o, tr_act true true c s RTimer = Some (s', o)).
+Proof. exact trtb_timer_enabled. Qed.
+Print Assumptions C08_trtb_timer_enabled.
